@@ -449,12 +449,21 @@ def foreign_constant(got, want):
         for x in subterms(t):
             if isinstance(x, tuple) and len(x) == 3 and x[0] == "c" and x[1] in ("f64", "int") and isinstance(x[2], (int, float)):
                 v = abs(float(x[2]))
-                if v == v and v not in (float("inf"),):
-                    out.add(v)
+                if v == v:
+                    out.add(v)   # (infinity included: `(a + INF) - (b + INF)` "is" a - b over the rationals and NaN in binary64)
+                else:
+                    out.add("nan")
         return out
     wc = consts(want)
-    for v in sorted(consts(got)):
-        if v != 0 and (v >= 1e3 or v <= 1e-3) and v not in wc and not any(abs(v - w) <= 1e-12 * max(v, w) for w in wc):
+    gc = consts(got)
+    if "nan" in gc and "nan" not in wc:
+        return float("nan")
+    for v in sorted(x for x in gc if x != "nan"):
+        if v == float("inf"):
+            if v not in wc:
+                return v
+            continue
+        if v != 0 and (v >= 1e3 or v <= 1e-3) and v not in wc and not any(w != "nan" and w != float("inf") and abs(v - w) <= 1e-12 * max(v, w) for w in wc):
             return v
     return None
 
